@@ -520,7 +520,21 @@ fn check_program<D: Subject>(cx: &mut Ctx, e: &E, pairs: bool) {
             }
         }
     }
-    let asts: Vec<(&'static str, String)> = ast_rewrites(e).into_iter().filter_map(|(r, ne)| print(&ne).map(|t| (r, t))).collect();
+    let mut asts: Vec<(&'static str, String)> = ast_rewrites(e).into_iter().filter_map(|(r, ne)| print(&ne).map(|t| (r, t))).collect();
+    // a block put before an operand stays attached to it across whitespace, an annotation or a comment line
+    let mut spaced = vec![];
+    for (r, t) in asts.iter() {
+        if r.starts_with("R5-side-effect-before") {
+            // the inserted block starts where the rewritten text departs from the original
+            let at = src.char_indices().zip(t.char_indices()).find(|((_, a), (_, c))| a != c).map(|((i, _), _)| i).unwrap_or(src.len());
+            if t[at..].starts_with("[1]") {
+                for gap in [" ", "\t", " @note ", "@note ", "\n@@ c\n", " @@ c\n"] {
+                    spaced.push((*r, format!("{}[1]{}{}", &t[..at], gap, &t[at + 3..])));
+                }
+            }
+        }
+    }
+    asts.extend(spaced);
     let singles = texts.clone();
     let mut pair_labels: std::collections::HashMap<String, String> = std::collections::HashMap::new();
     if pairs {
@@ -622,7 +636,7 @@ impl Property for C18 {
     fn meta(&self, tier: Tier) -> Meta {
         let s = spaces(tier);
         Meta {
-            rule: format!("every program of the C01 corpora T1 ({}), T3 up to {} nodes ({}), T4 reapply loops ({}), T5 call nesting ({}) and T6 block endings ({}) that runs - in its one-line text and, where a line break acts as whitespace, in a multi-line layout (every single space a line break; text rewrites only) -, x every single application at every applicable position of: R1 widen / remove / insert horizontal whitespace at a token boundary (only where the significant token sequence is unchanged and no list is formed or dissolved), R2 trailing whitespace before a newline, spaces on the blank line, extra blank line, leading/trailing whitespace, R3 annotation inside whitespace or at a boundary, comment lines, R4 parentheses around every complete operand, R5 `[1]` after an atom operand, after a parenthesised operator operand, before an atom operand and before an operand that starts with a prefix operator or a bracket; plus pairs of text rewrites for programs of <= 3 nodes (T1: <= 5). Oracle: the final value (input (:a = 1, :b = 2)) on both implementations is unchanged and the parse tree is equal modulo trivia (R1-R3), added groups (R4) and side-effect nodes (R5). Non-trivial = program; distinct by enumeration index.", s.t1.len(), s.t3.max, s.t3.len(), s.t4.len(), s.t5.len(), s.t6.len()),
+            rule: format!("every program of the C01 corpora T1 ({}), T3 up to {} nodes ({}), T4 reapply loops ({}), T5 call nesting ({}) and T6 block endings ({}) that runs - in its one-line text and, where a line break acts as whitespace, in a multi-line layout (every single space a line break; text rewrites only) -, x every single application at every applicable position of: R1 widen / remove / insert horizontal whitespace at a token boundary (only where the significant token sequence is unchanged and no list is formed or dissolved), R2 trailing whitespace before a newline, spaces on the blank line, extra blank line, leading/trailing whitespace, R3 annotation inside whitespace or at a boundary, comment lines, R4 parentheses around every complete operand, R5 `[1]` after an atom operand, after a parenthesised operator operand, before an atom operand and before an operand that starts with a prefix operator or a bracket (tight and with a space, tab, annotation or comment line between block and operand); plus pairs of text rewrites for programs of <= 3 nodes (T1: <= 5). Oracle: the final value (input (:a = 1, :b = 2)) on both implementations is unchanged and the parse tree is equal modulo trivia (R1-R3), added groups (R4) and side-effect nodes (R5). Non-trivial = program; distinct by enumeration index.", s.t1.len(), s.t3.max, s.t3.len(), s.t4.len(), s.t5.len(), s.t6.len()),
             assumptions: vec![
                 "a rewrite is applied only when re-lexing shows the same significant tokens (no tokens merged or split by the edit)".into(),
                 "programs whose original does not run are skipped (nothing to preserve)".into(),
